@@ -308,12 +308,13 @@ Inductive bk :=
 | BPreLoad (g size : Z)     (* allocated.load(); current + size > hard ? *)
 | BPreLoad2 (g size : Z)
 | BPreAdd (g size : Z)      (* allocated.fetch_add *)
-(* MemoryGrant::resize (grow through try_allocate_raw: load, then add; shrink through release) *)
+(* MemoryGrant::resize (grow through try_allocate_raw: load, then add; shrink through release:
+   no yield point lies between the size comparison and the fetch_sub, so the shrinking branch of
+   BZStart performs the fetch_sub itself) *)
 | BZStart (g new : Z)
 | BZLoad2 (g new : Z)
 | BZAdd (g new : Z)
 | BZRegion (g new : Z)
-| BZSub (g new : Z)
 | BZSubRegion (g new : Z)
 (* drop of a grant = release *)
 | BRelAlloc (g : Z)         (* allocated.fetch_sub *)
@@ -339,14 +340,13 @@ Definition bexec (k : bk) (b : buf) (l : regs) : buf * regs * ctl out :=
       if negb (slot_used l g) then (b, l, Ret (OB false))
       else let cur := slot_size l g in
            if new >? cur then (if b_alloc b + (new - cur) >? b_hard b then (b, l, Next) else (b, l, Goto 2))
-           else if new <? cur then (b, l, Goto 4)
+           else if new <? cur then (mkBuf (b_alloc b - (cur - new)) (b_regs b) (b_hard b), l, Goto 4)
            else (b, l, Ret (OB true))
   | BZLoad2 g new => if b_alloc b + (new - slot_size l g) >? b_hard b then (b, l, Ret (OB false)) else (b, l, Next)
   | BZAdd g new => (mkBuf (b_alloc b + (new - slot_size l g)) (b_regs b) (b_hard b), l, Next)
   | BZRegion g new =>
       (mkBuf (b_alloc b) (reg_add (region_of g) (new - slot_size l g) (b_regs b)) (b_hard b),
        set_mem l (aset g new (mem l)), Ret (OB true))
-  | BZSub g new => (mkBuf (b_alloc b - (slot_size l g - new)) (b_regs b) (b_hard b), l, Next)
   | BZSubRegion g new =>
       (mkBuf (b_alloc b) (reg_add (region_of g) (- (slot_size l g - new)) (b_regs b)) (b_hard b),
        set_mem l (aset g new (mem l)), Ret (OB true))
@@ -364,7 +364,7 @@ Definition bcode (op : bop) : list bk :=
   match op with
   | BAlloc g s => [BReserve g s; BReserve2 g s; BRegion g s]
   | BAllocPre g s => [BPreLoad g s; BPreLoad2 g s; BPreAdd g s; BRegion g s]
-  | BResize g n => [BZStart g n; BZLoad2 g n; BZAdd g n; BZRegion g n; BZSub g n; BZSubRegion g n]
+  | BResize g n => [BZStart g n; BZLoad2 g n; BZAdd g n; BZRegion g n; BZSubRegion g n]
   | BRelease g => [BRelAlloc g; BRelRegion g]
   end.
 Definition bcfg := @config buf regs bop out.
@@ -444,6 +444,88 @@ Definition pinit (progs : list (list pop)) : pcfg := init pst0 regs0 progs.
 Definition pidx_consistent (p : pst) : bool :=
   forallb (fun vn => match aget (snd vn) (p_props p) with Some v => v =? fst vn | None => false end) (p_idx p) &&
   forallb (fun nv => pmem (snd nv, fst nv) (p_idx p)) (p_props p).
+
+(** * Yield sites.  [xsite k jumped] is the name of the [verif::yield_point] site (commit 45dda10 of
+      /repo) at which the thread stands after step [k] when the step did not return
+      ([jumped] = the target when the step left by a [Goto]).  The scheduler harness reports the site at
+      which each granted step ended; the check compares the two sequences.  The sites of
+      set_node_property and of the rotating log are those of proposed-hooks/C20-*.diff. *)
+Open Scope string_scope.
+Definition gsite (k : gk) (jumped : option nat) : string :=
+  match k with
+  | GNAlloc => "lpg.create_node.after_alloc"
+  | GNCat _ => "lpg.create_node.after_label_id"
+  | GNIdx _ => "lpg.create_node.after_label_index"
+  | GNLabels _ => "lpg.create_node.after_node_labels"
+  | GDMark _ => "lpg.delete_node.after_mark"
+  | GDPropIdx => "lpg.delete_node.after_property_indexes"
+  | GACheck _ => "lpg.add_label.after_check"
+  | GACat _ => "lpg.add_label.after_label_id"
+  | GALabels _ _ => "lpg.add_label.after_node_labels"
+  | GRCheck _ => "lpg.remove_label.after_check"
+  | GRCat _ => "lpg.remove_label.after_label_id"
+  | GRLabels _ _ => "lpg.remove_label.after_node_labels"
+  | GEAlloc => "lpg.create_edge.after_alloc"
+  | GECat => "lpg.create_edge.after_type_id"
+  | GEIns _ _ => "lpg.create_edge.after_edges"
+  | GEFwd _ _ => "lpg.create_edge.after_forward"
+  | GXMark _ => "lpg.delete_edge.after_mark"
+  | GXFwd _ => "lpg.delete_edge.after_forward"
+  | GXBwd _ => "lpg.delete_edge.after_backward"
+  | GNIns | GDProps | GAIdx _ _ | GRIdx _ _ | GEBwd _ _ | GXProps => "?"   (* these steps always return *)
+  end.
+Definition qsite (k : qk) (jumped : option nat) : string :=
+  match k with
+  | QIContains _ => "rdf.insert.after_contains"
+  | QIPrim _ => "rdf.insert.after_primary"
+  | QIS _ => "rdf.insert.after_subject"
+  | QIP _ => "rdf.insert.after_predicate"
+  | QRPrim _ => "rdf.remove.after_primary"
+  | QRS _ => "rdf.remove.after_subject"
+  | QRP _ => "rdf.remove.after_predicate"
+  | QIO _ | QRO _ => "?"
+  end.
+Definition msite (k : mk) (jumped : option nat) : string :=
+  match k with
+  | MAlloc => "tm.begin.after_alloc"
+  | MLoadEpoch => "tm.begin.after_epoch"
+  | MInsert _ | MCommit _ | MAbort _ => "?"
+  end.
+Definition bsite (k : bk) (jumped : option nat) : string :=
+  match k with
+  | BReserve _ _ => match jumped with Some _ => "buffer.try_allocate.after_reserve" | None => "buffer.try_allocate.after_first_reserve" end
+  | BReserve2 _ _ => "buffer.try_allocate.after_reserve"
+  | BZStart _ _ => match jumped with
+                   | Some 2%nat => "buffer.try_allocate_raw.after_check"
+                   | Some _ => "buffer.release.after_allocated"
+                   | None => "buffer.try_allocate_raw.after_first_load"
+                   end
+  | BZLoad2 _ _ => "buffer.try_allocate_raw.after_check"
+  | BZAdd _ _ => "buffer.try_allocate_raw.after_add"
+  | BRelAlloc _ => "buffer.release.after_allocated"
+  | BRegion _ _ | BZRegion _ _ | BZSubRegion _ _ | BRelRegion _ => "?"
+  (* the pre-repair try_allocate had no hook; the names are those the hook would have had *)
+  | BPreLoad _ _ => match jumped with Some _ => "buffer.try_allocate.after_check" | None => "buffer.try_allocate.after_first_load" end
+  | BPreLoad2 _ _ => "buffer.try_allocate.after_check"
+  | BPreAdd _ _ => "buffer.try_allocate.after_add"
+  end.
+Definition wsite (k : wk) (jumped : option nat) : string :=
+  match k with WEnsure => "wal.log.after_ensure" | WAppend _ => "?" end.
+Definition rsite (k : rk) (jumped : option nat) : string :=
+  match k with
+  | REnsure => "wal.log.after_ensure"
+  | RAppend _ => "wal.log.after_append"
+  | RSeq => "wal.rotate.after_sequence"
+  | RInstall => "?"
+  end.
+Definition psite (k : pk) (jumped : option nat) : string :=
+  match k with
+  | PIdx _ _ => "lpg.set_node_property.after_index"
+  | PSet _ _ => "lpg.set_node_property.after_set"
+  | PCount => "lpg.set_node_property.after_count"
+  | PNodes => "?"
+  end.
+Close Scope string_scope.
 
 (** * Lock footprints.  A lock is identified by its rank: the documented level of
       graph/lpg/store.rs l.137-166 times ten, plus a position inside the level; the other
